@@ -101,7 +101,7 @@ def run(repo, res):
     for text, ok, detail in first_statement_layouts(repo):
         if ok is None:
             raise AnalysisError('get_first_body_node_loc is outside the interpretable subset on %r: %s' % (text, detail))
-        res.check('C01-R4', 'first token of a body starting with %r' % text.splitlines()[0 if not text.startswith('@') else len([l for l in text.splitlines() if l.startswith('@')])],
+        res.check('C01-R4', 'first token of a body starting with %r' % ' / '.join(l.strip() for l in text.splitlines()[:2]),
                   ok, 'supp/scope.py', 0, detail, sample='parameters visible from the first token of %r' % text.splitlines()[0])
 
     drecs = R.declaration_records(repo)
